@@ -40,6 +40,10 @@ struct Slot {
   bool may_map = false;        // after a resync some object may carry a lookup map
   uint32_t schema_live = 0;    // ledger id of the live ParseSchema text buffer
   bool own_alloc = false;
+  // a node moved OUT of the document (pool flavour only: its memory stays valid as long as the pool lives, whatever the
+  // document does afterwards - reparse, ParseSchema, mutation); checked like a document after every op
+  void* stash = nullptr;
+  JVal stash_m;
 };
 
 struct RunResult {
@@ -124,7 +128,11 @@ struct DomExec {
     }
     s.m = JVal::null(); s.may_map = false; s.schema_live = 0;
   }
+  void drop_stash(Slot& s) {   // pool flavour only: the node's destructor touches no memory
+    if (s.stash) { delete (typename NodeOf<DPool>::type*)s.stash; s.stash = nullptr; s.stash_m = JVal::null(); }
+  }
   void del_doc(Slot& s) {
+    drop_stash(s);   // its memory may die with the document's own pool
     switch (s.flavour) {
       case FL_POOL: delete (DPool*)s.doc; break;
       case FL_SIMPLE: delete (DSimple*)s.doc; break;
@@ -202,6 +210,10 @@ struct DomExec {
       if (!s.doc) continue;
       if (!all && i != touched_a && i != touched_b) continue;
       with_doc(s, [&](auto& d) { check_doc(d, s, when); });
+      if (s.stash) {
+        std::string got = walk_str(*(const typename NodeOf<DPool>::type*)s.stash), want = model::canon(s.stash_m);
+        if (got != want) violate("model", site("moved_out_node"), "a node that was moved out of its document (pool allocator, pool still alive) changed: got " + model::printable(got, 300) + " want " + model::printable(want, 300));
+      }
     }
   }
   int walk_all_every = 1;
@@ -247,6 +259,31 @@ struct DomExec {
       }
       kb.release();
       ob += 'L'; ob += std::to_string(want < 0 ? -1 : (relaxed ? -2 : want));
+    }
+    // probes that ARE (part of) a stored name: the same address with a shorter length is another key (address identity must not
+    // decide a lookup), and the empty key may be handed over as a view without any address at all ({nullptr, 0})
+    if (!(m.has_map || may_map) || !m.has_dup_keys()) {
+      size_t nm = n.Size(), step = nm > 6 ? nm / 6 : 1;
+      for (size_t qi = (size_t)cur_op % step; qi < nm; qi += step) {
+        StringView name = (n.MemberBegin() + (long)qi)->name.GetStringView();
+        if (name.size() == 0) continue;
+        size_t cut = name.size() - 1 - ((size_t)cur_op + qi) % (name.size() < 4 ? 1 : 3) % name.size();
+        std::string pk(name.data(), cut);
+        int want = m.find(pk);
+        long e = (long)n.Size();
+        long i1 = n.FindMember(StringView(name.data(), cut)) - n.MemberBegin(), i2 = n.FindMember(name.data(), cut) - n.MemberBegin();
+        if (want < 0 ? (i1 != e || i2 != e) : (m.count_key(pk) > 1 ? (i1 == e || i2 == e) : (i1 != want || i2 != want)))
+          violate("model", site("lookup_prefix_of_stored_name"), "lookup with the first " + std::to_string(cut) + " bytes of member " + std::to_string(qi) + "'s own name buffer ('" + model::printable(pk) + "'): model index " + std::to_string(want) + ", FindMember(view) " + std::to_string(i1) + ", FindMember(ptr,len) " + std::to_string(i2) + ", size " + std::to_string(e));
+      }
+      int we = m.find("");
+      if (we < 0 || m.count_key("") == 1) {
+        const N& cn = n;
+        long e = (long)n.Size(), w = we < 0 ? e : we;
+        long j1 = n.FindMember(StringView()) - n.MemberBegin(), j2 = n.FindMember((const char*)nullptr, 0) - n.MemberBegin(), j3 = cn.FindMember(StringView()) - cn.MemberBegin();
+        bool has = cn.HasMember(StringView());
+        if (j1 != w || j2 != w || j3 != w || has != (we >= 0) || (we >= 0 && &cn[StringView()] != &(n.MemberBegin() + we)->value))
+          violate("model", site("lookup_null_view"), "lookup of the empty key given as {nullptr,0}: model index " + std::to_string(we) + ", FindMember(view) " + std::to_string(j1) + ", FindMember(ptr,len) " + std::to_string(j2) + ", HasMember " + std::to_string(has) + ", size " + std::to_string(e));
+      }
     }
   }
 
@@ -399,9 +436,11 @@ struct DomExec {
       D& e = *(D*)o.doc;
       if (op.kind == "DocSwap") {
         d.Swap(e);
+        std::swap(s.stash, o.stash); std::swap(s.stash_m, o.stash_m);   // the moved-out nodes live in the pools that just changed places
         std::swap(s.m, o.m); std::swap(s.may_map, o.may_map); std::swap(s.schema_live, o.schema_live); std::swap(s.own_alloc, o.own_alloc);
         ob = "swap";
       } else if (op.kind == "DocMove") {
+        drop_stash(s); s.stash = o.stash; s.stash_m = std::move(o.stash_m); o.stash = nullptr; o.stash_m = JVal::null();
         d = std::move(e);
         s.m = std::move(o.m); s.may_map = o.may_map; s.schema_live = o.schema_live; s.own_alloc = o.own_alloc;
         o.schema_live = 0;
@@ -409,6 +448,7 @@ struct DomExec {
         ob = "move";
       } else {
         del_doc(s);
+        s.stash = o.stash; s.stash_m = std::move(o.stash_m); o.stash = nullptr; o.stash_m = JVal::null();
         s.doc = new D(std::move(e));
         s.m = std::move(o.m); s.may_map = o.may_map; s.schema_live = o.schema_live; s.own_alloc = o.own_alloc;
         o.schema_live = 0;
@@ -464,6 +504,39 @@ struct DomExec {
     A& alloc = d.GetAllocator();
     BuildCtx bc; bc.seed = mix64(seed ^ (uint64_t)cur_op * 31337); bc.keep = &keep; bc.str_mode = (int)plan.K("str_mode", 2); bc.shared = &shared_const;
 
+    // ---------------- a node that leaves the document and comes back later (pool flavour)
+    if (k == "Stash" || k == "Unstash") {
+      if (s.flavour != FL_POOL) return false;
+      auto t = resolve(root, s.m, op.S(0));
+      if (k == "Stash") {
+        if (s.stash) return false;
+        s.stash = new N(std::move(*t.n));
+        s.stash_m = std::move(*t.m); *t.m = JVal::null();
+        probe("node_moved_out_of_its_document");
+        ob = "st"; return true;
+      }
+      if (!s.stash) return false;
+      N* st = (N*)s.stash;
+      *t.n = std::move(*st);
+      *t.m = std::move(s.stash_m); s.stash_m = JVal::null();
+      delete st; s.stash = nullptr;
+      ob = "us"; return true;
+    }
+    // ---------------- Parse of a text that lives in the document's own pool (a JSON text carried in a string member)
+    if (k == "ParseSelf") {
+      if (s.flavour != FL_POOL) return false;
+      auto t = resolve(root, s.m, op.S(0));
+      if (t.m->k != JVal::Str || !t.n->IsString() || t.n->IsStringConst()) return false;   // an owned string: its bytes are pool memory
+      std::string text = t.m->s;
+      model::ParseOut ref = model::parse(text);
+      StringView own = t.n->GetStringView();
+      d.Parse(own);
+      s.schema_live = 0;
+      ob = "PS" + std::to_string((int)d.GetParseError());
+      probe("parse_of_text_inside_own_pool");
+      after_parse(d, s, ref, text.size());
+      return true;
+    }
     // ---------------- document-level parse family
     if (k == "Parse" || k == "ParseOnDemand" || k == "ParseSchema") {
       const std::string& text = op.S(1);
